@@ -33,6 +33,11 @@ BOUNDS = {"sides": "1-D<=16, 2-D<=8, 3-D<=5", "instances": "<= ~8 per side"}
 @st.composite
 def case_strategy(draw):
     pred, ref = draw(gen.pair(k=4, derived_weight=4))
+    if draw(st.integers(0, 5)) == 0:
+        # a single slice stored as a volume: thick 2-D instances with a singleton axis somewhere
+        pred, ref = draw(gen.pair(ndims=(2,), k=3, derived_weight=4))
+        ax = draw(st.integers(0, 2))
+        pred, ref = np.expand_dims(pred, ax), np.expand_dims(ref, ax)
     metric = draw(st.sampled_from(["IOU", "IOU", "DSC", "ASSD"]))
     return {
         "pred": gen.compact(pred).tolist(),
